@@ -32,7 +32,10 @@ RULE = ("list class drawn from all concrete TimedList subclasses; 0-10 (sometime
         "neighbours 1 ms / 0.5 ms / 1/1024 ms / 1 ulp apart; bounds equal to a row's offset (or tail) or 1 ms / 0.5 ms / 1 ulp "
         "next to it (equality at the inclusive flags, nothing near the bound may be taken for it); "
         "arbitrary row labels (permuted, gapped, duplicated); 1-12 operations, each on the latest result or on any earlier live "
-        "list, every live list re-observed after every step; "
+        "list, every live list re-observed after every step; 14 % of the steps are a client's IN-PLACE edit of a live list "
+        "(offset += d, a whole column assigned, one cell through df.iloc / df.loc, hold lengths) after which every live "
+        "list is read again and every observable (len, first/last offset, indexing, iteration) must be the one of its "
+        "CURRENT rows; "
         "non-trivial = at least 2 rows and (a tie or bound equal to an offset, or labels != positions when indexed)")
 ASSUMPTIONS = [
     "values are dyadic rationals of small magnitude: every double operation the code performs is exact",
@@ -274,6 +277,12 @@ def gen_op(rng, inf, n):
     if hold:
         kinds += ["hafter", "hafter", "hbefore", "hbefore", "hbetween", "hbetween"]
     k = rng.choice(kinds)
+    if rng.random() < 0.14:
+        # a client edit of a live list IN PLACE (same list object, same frame) between two operations: the property
+        # speaks about lists "after any earlier operations", so every later observation must follow the current rows
+        how = rng.choice(["iadd", "iadd", "assign", "cell", "loc"] + (["hlen"] if hold else []))
+        return dict(k="edit", how=how, d=cv(rng.choice([d for d in DELTAS if d != 0] + [Fr(250), Fr(-1000), Fr(7, 2)])),
+                    i=rng.randint(-n - 1, n + 1))
     if k == "slice":
         def ix():
             return rng.choice([None, rng.randint(-n - 2, n + 2), rng.randint(0, n + 1)])
@@ -528,6 +537,9 @@ def _op_ok(inf, o):
         return inf["hold"] and _is_rat(o.get("lo")) and _is_rat(o.get("hi")) and all(isinstance(o.get(f), bool) for f in ("il", "ih", "head", "tail"))
     if k == "sorted":
         return isinstance(o.get("rev"), bool)
+    if k == "edit":
+        return o.get("how") in ("iadd", "assign", "cell", "loc", "hlen") and (inf["hold"] or o["how"] != "hlen") \
+            and _is_rat(o.get("d")) and _oint(o.get("i")) and o.get("i") is not None
     if k == "append":
         if o.get("how") == "member":
             return isinstance(o.get("m"), int) and not isinstance(o["m"], bool) and o["m"] >= 0 and isinstance(o.get("sort"), bool)
@@ -678,6 +690,34 @@ def apply_op(inf, tl, o):
         val = append_val(inf, o)
         return tl.append(val, sort=True) if o["sort"] else (tl.append(val) if o.get("dflt", True) else tl.append(val, sort=False))
     raise ValueError(k)
+
+
+def apply_edit(inf, tl, o):
+    """edits the list IN PLACE through the public API (the list object and its frame stay the same objects);
+    returns False when there is nothing to edit"""
+    n = len(tl)
+    if n == 0:
+        return False
+    d = float(F(o["d"]["f"]))
+    how = o["how"]
+    i = o["i"] % n
+    if how == "iadd":
+        tl.offset += d                               # list-property column setter: df["offset"] = ...
+    elif how == "assign":
+        vals = [float(v) for v in tl.offset.tolist()]
+        vals[i] = vals[i] + d
+        tl.offset = vals
+    elif how == "cell":
+        j = list(tl.df.columns).index("offset")
+        tl.df.iloc[i, j] = float(tl.df.iloc[i, j]) + d
+    elif how == "loc":
+        lab = tl.df.index[i]
+        if list(tl.df.index).count(lab) != 1:
+            return False
+        tl.df.loc[lab, "offset"] = float(tl.df.loc[lab, "offset"]) + d
+    elif how == "hlen":
+        tl.length = tl.length + abs(d)
+    return True
 
 
 def append_val(inf, o):
@@ -939,6 +979,35 @@ def run_history(case, drv):
         cur, tbl = rec["tl"], rec["tbl"]
         if ri != len(pool) - 1:
             tags.append("earlier-receiver")
+        if o["k"] == "edit":
+            # not an operation of the property but a client's in-place edit: afterwards every live list is read again
+            # through its frame (a list derived by slicing may legitimately share memory with the edited one - that is
+            # C14's subject, not C16's) and every observable must be the one of the CURRENT rows
+            try:
+                done = apply_edit(inf, cur, o)
+            except Exception as e:
+                tags.append("edit-raises:" + err_class(e))
+                break
+            if not done:
+                tags.append("edit-nothing")
+                continue
+            tags.append("edit:" + o["how"])
+            synced = False
+            stop = False
+            for k2, mem in enumerate(pool):
+                try:
+                    _, now = state(mem["tl"])
+                except Exception as e:
+                    tags.append("edit-unreadable:" + err_class(e))
+                    stop = True
+                    break
+                mem["tbl"] = now
+            if stop:
+                break
+            for k2, mem in enumerate(pool):
+                check_obs(mem["tl"], mem["tbl"], f"{si}/after-edit/live{k2}")
+            nontrivial = True
+            continue
         try:
             if o["k"] == "append" and o.get("how") == "member":
                 src = pool[o["m"] % len(pool)]
